@@ -242,7 +242,24 @@ func judge(out *pipe.Outcome, ix *pipe.Index) pipe.Verdict {
 						break
 					}
 				}
-				if c.err != "" && keptWorking && !strings.Contains(c.err, "already triggered") && !strings.Contains(c.err, "stop already") {
+				// a pipeline with several sources is still starting up while one of its
+				// sources has not been opened yet; the engine refuses a stop then
+				allOpen := true
+				for _, sp := range sc.Topo.Sources {
+					has := false
+					for _, x := range sessions[sp.ID] {
+						if x.open < c.ctl && (x.tear < 0 || x.tear > c.ctl) {
+							has = true
+						}
+					}
+					if !has {
+						allOpen = false
+					}
+				}
+				if !allOpen {
+					v.Stats["stops_during_start_up_not_judged"]++
+				}
+				if c.err != "" && keptWorking && allOpen && !strings.Contains(c.err, "already triggered") && !strings.Contains(c.err, "stop already") {
 					add("stop-refused-on-live-run", fmt.Sprintf("%s at event %d: the pipeline is reported Running and its run (source session opened at %d) is live, yet the call returned %q", c.op, c.ctl, live.open, c.err), live.open, c.ctl, c.ret)
 				}
 			}
@@ -271,9 +288,28 @@ func judge(out *pipe.Outcome, ix *pipe.Index) pipe.Verdict {
 			live := liveAt(c.ctl)
 			if live != nil && statusAt(c.ctl) == "Running" && evs[c.ctl].Note == "Running" {
 				v.Stats["waits_on_live_run"]++
-				if live.tear < 0 || live.tear > c.ret {
+				// A run that ends by force stop or failure (cancelled context) may leave
+				// its plugin Teardown detached, i.e. the call reaches the plugin late or
+				// never; "the run had not ended" therefore needs evidence that the run
+				// kept WORKING after WaitPipeline returned: an ack delivered to, or a
+				// record of it written for, that same source session.
+				worksAfter := false
+				for q := c.ret; q < len(evs); q++ {
+					e := &evs[q]
+					if e.Kind == rig.KSrcOpen && e.Comp == src0 && q > live.open {
+						break // a later session of the source: a new run
+					}
+					if e.Kind == rig.KSrcAck && e.Comp == src0 && fmt.Sprintf("%s#%d", e.Comp, e.Sess) == live.id {
+						worksAfter = true
+						break
+					}
+				}
+				if (live.tear < 0 || live.tear > c.ret) && !worksAfter {
+					v.Stats["waits_returned_with_detached_teardown"]++
+				}
+				if (live.tear < 0 || live.tear > c.ret) && worksAfter {
 					add("wait-returned-before-run-ended", fmt.Sprintf("WaitPipeline called at event %d on a Running pipeline returned at event %d while the live run's source session (opened at %d) was not torn down", c.ctl, c.ret, live.open), live.open, c.ctl, c.ret)
-				} else {
+				} else if live.tear >= 0 && live.tear <= c.ret {
 					// the terminal result of THAT run: the first status stored after its teardown
 					res := ""
 					for q := live.tear; q < len(evs); q++ {
